@@ -9,6 +9,8 @@ Decided (all structural, all executors):
    P2M / L2P guarded by H > U; U = max(0, constructor argument)
  4 write sets: stage X hands as mutable only X's output block (P2P: particle results, no cell block)
 """
+import re
+
 import sympy
 
 import tbf
@@ -202,6 +204,85 @@ def check_executor(facts, cls, res, expected_flags, weff=None, full=True):
     return ex
 
 
+RESETTERS = {"assign", "clear", "resize", "fill", "swap", "shrink_to_fit", "erase", "pop_back"}
+
+
+def toptree_state(facts, cls, res):
+    """C12.5: the virtual-level expansions a top-tree executor keeps between execute() calls (the members
+    it hands to the kernel operators as multipole / local arguments) are written only through the
+    operators: nothing else in the class resets, resizes or reassigns them after construction, otherwise
+    a staged sequence of execute() calls loses what an earlier stage produced"""
+    import coherence
+    import effects
+    import c02
+    R = "C12.5.state-between-stages"
+    cmap = effects.container_map(facts)
+    state = set()
+    fields = {f["name"] for f in facts.cls(cls)["fields"]}
+    for fn, sr, call, op, slots in c02.toptree_calls(facts, cls, cmap):
+        for (role, part, io), sl in zip(coherence.ROLES[op], slots):
+            if part not in ("multipole", "local"):
+                continue
+            nodes = [sl["node"]] + [e["node"] for e in sl.get("elems", []) if "node" in e]
+            for n in nodes:
+                for y in walk(n):
+                    if y.get("k") == "MemberExpr" and y.get("name") in fields:
+                        state.add(y["name"])
+    if len(state) < 2:
+        raise AnalysisBroken("%s: virtual-level expansion members not identified (%s)" % (cls, sorted(state)))
+    res.instance(R, cls, "src/algorithms/periodic", "state carried between stages: %s" % sorted(state))
+    for m in facts.methods_of(cls):
+        if m["kind"] == "CXXConstructor" or tbf.body(m) is None:
+            continue
+        for x in walk(tbf.body(m)):
+            hit = None
+            if x.get("k") in ("CallExpr", "CXXMemberCallExpr"):
+                base = tbf.call_base(x)
+                nm = tbf.callee_name(x)
+                if base is not None and strip(base).get("k") == "MemberExpr" and strip(base).get("name") in state and nm in RESETTERS:
+                    hit = "%s.%s(...)" % (strip(base)["name"], nm)
+                if nm in ("fill", "fill_n", "memset", "swap") and base is None:
+                    for a in tbf.call_args(x):
+                        if any(y.get("k") == "MemberExpr" and y.get("name") in state for y in walk(a)):
+                            hit = "%s(%s...)" % (nm, facts.ntext(a)[:30])
+            if x.get("k") in ("BinaryOperator", "CXXOperatorCallExpr") and x.get("op") == "=":
+                lhs = strip(kids(x)[0] if x.get("k") == "BinaryOperator" else kids(x)[1])
+                root = lhs
+                while root.get("k") in ("ArraySubscriptExpr", "CXXOperatorCallExpr") and kids(root):
+                    root = strip(kids(root)[0] if root.get("k") == "ArraySubscriptExpr" else kids(root)[1])
+                if root.get("k") == "MemberExpr" and root.get("name") in state:
+                    hit = facts.ntext(lhs)[:40] + " = ..."
+            if hit:
+                res.violation(R, tbf.rel(facts.path_of(x)), m["qname"], "%s@%d" % (hit, x["l"][1]), x["l"][1],
+                              "%s resets the virtual-level expansions (%s) outside the operators: what an earlier execute() stage produced is lost, so staged calls no longer equal a full run" % (m["name"], hit))
+
+
+def tree_touched_only_through_groups(facts, cls, res):
+    """C12.5 for the tree executors: execute() and the stage functions reach the tree only through its
+    group accessors (the wrapper then applies the operators); they never visit / reset / rebuild it"""
+    R = "C12.5.state-between-stages"
+    n = 0
+    for m in facts.methods_of(cls):
+        b = tbf.body(m)
+        if b is None:
+            continue
+        tparams = [p["did"] for p in m["params"] if "TreeClass" in p["t"]]
+        if not tparams:
+            continue
+        for x in walk(b):
+            if x.get("k") in ("CallExpr", "CXXMemberCallExpr"):
+                base = tbf.call_base(x)
+                if base is not None and strip(base).get("did") in tparams:
+                    nm = tbf.callee_name(x) or ""
+                    n += 1
+                    if not re.match(r"^get[A-Z]\w*$", nm):
+                        res.violation(R, tbf.rel(facts.path_of(x)), m["qname"], "tree.%s@%d" % (nm, x["l"][1]), x["l"][1],
+                                      "the executor calls %s() on the tree: outside the operators it may only fetch groups; visiting or resetting the tree between stages breaks the staged = full equivalence" % nm)
+    res.instance(R, cls, "src/algorithms", "%d calls on the tree parameter, all group accessors" % n)
+    if n < 6:
+        raise AnalysisBroken("%s: only %d calls on the tree parameter recognised" % (cls, n))
+
+
 def run(res, tier):
     facts = tbf.scan("core")
     res.units.append("umbrella TU 'core' (%d headers, %d function patterns)" % (len(facts.headers), len(facts.functions)))
@@ -216,9 +297,12 @@ def run(res, tier):
     for cls in FULL:
         ex = check_executor(facts, cls, res, stages.FLAG_NAMES, weff)
         nguard += len(ex.guarded) + len(ex.unguarded)
+        tree_touched_only_through_groups(facts, cls, res)
+    res.rule("C12.5 the top-tree executors' virtual-level expansions (state between execute() calls) are modified only through the kernel operators")
     for cls in TOPTREE:
         ex = check_executor(facts, cls, res, ["TbfM2M", "TbfM2L", "TbfL2L"], None, full=False)
         nguard += len(ex.guarded) + len(ex.unguarded)
+        toptree_state(facts, cls, res)
     res.floor("C12.1", nguard, 30, "guarded stage calls")
     if tier == "thorough":
         sf = tbf.scan("specx")
